@@ -116,6 +116,9 @@ def explicit(tier, seed):  # noqa: C901
     # mostly non-ASCII final results / errors: few characters, many bytes
     for n in (900_000, 1_050_000, 2_200_000, 3_000_000):
         yield case("final-result-cjk-%d" % n, [{"k": "step", "val": 1}], prog_extra={"ret": {"big": n, "ch": "\u6f22"}})
+    # error messages whose JSON text is much longer than the message (quotes, backslashes, newlines are escaped)
+    for ch, n in (('"', 3_200_000), ("\\", 3_150_000), ("\n", 3_300_000), ("\u00e9", 2_000_000), ('"', 2_900_000)):
+        yield case("final-error-escaped-%d" % n, [{"k": "raise", "cls": "ValueError", "msg": ch * n}])
     yield case("final-error-cjk", [{"k": "raise", "cls": "ValueError", "msg": "\u6f22" * 2_500_000}])
 
 
